@@ -249,6 +249,13 @@ func (fr *Frame) specEnv(n *vnode, heap map[string]*Term) *SpecEnv {
 					}
 					return &SV{T: v.T, Ty: phi.Type()}
 				}
+				if nx, ok := in.(*ssa.Next); ok && nx.IsString {
+					// range over a string: the byte position about to be decoded
+					if it := f.lookup(nx.Iter, n); it != nil && len(it.Tup) == 2 {
+						m := f.x.comp(heap, "G$iterpos", SArray(SInt, SInt))
+						return &SV{T: Select(m, it.Tup[1].T), Ty: types.Typ[types.Int]}
+					}
+				}
 			}
 			return nil
 		}
